@@ -81,17 +81,30 @@ func build(vx *vaxis.Vaxis, sc rect, chain []Win) (vaxis.Window, rect, int, int)
 	win := vx.Window()
 	clip := sc
 	oc, or := 0, 0
+	// the size of the parent as the documentation of New defines it, not as
+	// the library computed it
+	pw, ph := sc.c1-sc.c0, sc.r1-sc.r0
 	for _, w := range chain {
 		var next vaxis.Window
+		rw, rh := w.W, w.H
 		if w.Literal {
 			parent := win
 			next = vaxis.Window{Vx: vx, Parent: &parent, Column: w.Col, Row: w.Row, Width: w.W, Height: w.H}
 		} else {
 			next = win.New(w.Col, w.Row, w.W, w.H)
+			// New: a negative size, or one that reaches beyond the parent,
+			// means "the rest of the parent"
+			if w.W < 0 || w.Col+w.W > pw {
+				rw = pw - w.Col
+			}
+			if w.H < 0 || w.Row+w.H > ph {
+				rh = ph - w.Row
+			}
 		}
-		oc += next.Column
-		or += next.Row
-		clip = clip.intersect(rect{oc, or, oc + next.Width, or + next.Height})
+		oc += w.Col
+		or += w.Row
+		clip = clip.intersect(rect{oc, or, oc + rw, or + rh})
+		pw, ph = rw, rh
 		win = next
 	}
 	return win, clip, oc, or
